@@ -61,7 +61,8 @@ const CAP: u32 = u32::MAX - 7_000_000;
 
 /// argument vectors of the controller's entry points
 #[derive(Clone, PartialEq, Debug)]
-enum Av { U32(u32), Role(usize, usize, usize), RoleAdmin(usize, usize), Transfer(usize, u32), Nil, Renounce(usize, usize) }
+enum Av { U32(u32), Role(usize, usize, usize), RoleAdmin(usize, usize), Transfer(usize, u32), Nil, Renounce(usize, usize),
+          Sched(Box<OpD>, u32, usize), Exec(Box<OpD>, Option<usize>), Cancel([u8; 32], usize) }
 
 #[derive(Clone, PartialEq, Debug)]
 struct OpD { target: usize, f: u8, av: Av, pred: [u8; 32], salt: u8 }
@@ -102,10 +103,16 @@ impl World {
             Av::Transfer(a, lu) => soroban_sdk::vec![e, self.addrs[*a].to_val(), lu.into_val(e)],
             Av::Nil => Vec::new(e),
             Av::Renounce(r, c) => soroban_sdk::vec![e, self.role(*r).to_val(), self.addrs[*c].to_val()],
+            Av::Sched(o, d, p) => (self.addrs[o.target].clone(), Symbol::new(e, fn_name(o.f)), self.av_vals(&o.av), self.bytes(&o.pred), self.salt(o.salt), *d, self.addrs[*p].clone()).into_val(e),
+            Av::Exec(o, x) => (self.addrs[o.target].clone(), Symbol::new(e, fn_name(o.f)), self.av_vals(&o.av), self.bytes(&o.pred), self.salt(o.salt), x.map(|a| self.addrs[a].clone())).into_val(e),
+            Av::Cancel(i, k) => (self.bytes(i), self.addrs[*k].clone()).into_val(e),
         }
     }
-    fn av_coq(av: &Av) -> String {
+    fn av_coq(&mut self, av: &Av) -> String {
         match av {
+            Av::Sched(o, d, p) => { let oc = self.op_coq(o); format!("(AV_sched {} {} {})", oc, d, n(*p as u64)) }
+            Av::Exec(o, x) => { let oc = self.op_coq(o); format!("(AV_exec {} {})", oc, opt(x.map(|a| n(a as u64)))) }
+            Av::Cancel(i, k) => { let ix = self.id_ix(*i); format!("(AV_cancel {} {})", n(ix), n(*k as u64)) }
             Av::U32(d) => format!("(AV_u32 {})", d),
             Av::Role(a, r, c) => format!("(AV_role {} {} {})", n(*a as u64), n(*r as u64), n(*c as u64)),
             Av::RoleAdmin(r, ar) => format!("(AV_role_admin {} {})", n(*r as u64), n(*ar as u64)),
@@ -115,7 +122,7 @@ impl World {
         }
     }
     fn av_ix(&mut self, av: &Av) -> u64 {
-        let s = Self::av_coq(av);
+        let s = self.av_coq(av);
         if let Some(p) = self.avs.iter().find(|x| x.0 == s) { return p.1; }
         let k = self.avs.len() as u64 + 1;
         self.avs.push((s, k)); k
@@ -294,6 +301,7 @@ impl Tr {
             (SELF, 13, Av::RoleAdmin(4, 5)), (SELF, 11, Av::Role(OUT, 5, SELF)),
             (SELF, 14, Av::Transfer(ADM, now0 + 40 + rng.below(40) as u32)), (SELF, 15, Av::Nil), (SELF, 16, Av::Nil),
             (TGT, 0, Av::U32(1)), (TGT, 0, Av::U32(2)), (TGT, 1, Av::U32(3)), (DEAD, 0, Av::U32(1)), (SELF, 21, Av::Nil),
+            (SELF, 11, Av::Role(SELF, 2, SELF)),
         ];
         // shuffle, keep nops, but always keep one update_delay first
         if !plain { for i in (2..pool.len()).rev() { let j = 1 + rng.below(i as u64) as usize; pool.swap(i, j); } }
@@ -489,7 +497,7 @@ fn plain_auth(rng: &mut Rng, who: usize) -> Authz {
 fn good_self(o: &OpD, x: Option<usize>) -> Authz {
     let mut a = Authz::default();
     a.selfe = Some(SelfE { root: Cx::C(o.target, o.f, o.av.clone()), subs: std::vec![], metas: std::vec![MetaD { pred: o.pred, salt: o.salt, exec: x }] });
-    if let Some(x) = x { a.exec.push((x, o.clone())); }
+    if let Some(x) = x { if x != SELF { a.exec.push((x, o.clone())); } }   // the controller as executor signs nothing (invoker-contract rule)
     a
 }
 
@@ -766,6 +774,66 @@ fn main() {
             tr.call(&mut out, &C::Execute(11, Some(X1), pa(X1)));
             tr.finish(&mut out, &format!("directed/persistence-gap{}-host{}", gap, hc));
         }
+    }
+    // the controller itself holds executor / proposer / canceller roles (granted through the timelock)
+    for nexec in 0..=1usize {
+        let execs: std::vec::Vec<usize> = [X1][..nexec].to_vec();
+        let mut tr = Tr::new_h(&mut rng, 700, 2, &[P1], &execs, None, 1, true, nexec);
+        let pa = |p: usize| { let mut a = Authz::default(); a.plain.push(p); a };
+        let z = [0u8; 32];
+        let mk = |f: u8, av: Av, salt: u8| OpD { target: SELF, f, av, pred: z, salt };
+        let g_e = mk(11, Av::Role(SELF, 2, SELF), 50); let g_p = mk(11, Av::Role(SELF, 1, SELF), 51); let g_c = mk(11, Av::Role(SELF, 3, SELF), 52);
+        let u1 = mk(10, Av::U32(7), 53); let u2 = mk(10, Av::U32(8), 54); let u3 = mk(10, Av::U32(9), 55); let u4 = mk(10, Av::U32(6), 56);
+        let ext = OpD { target: TGT, f: 0, av: Av::U32(2), pred: z, salt: 57 };
+        let s_x = mk(19, Av::Exec(Box::new(ext.clone()), Some(SELF)), 58);
+        let s_s = mk(18, Av::Sched(Box::new(u3.clone()), 20, SELF), 59);
+        let k_ge = tr.add_op(g_e.clone()); let k_gp = tr.add_op(g_p.clone()); let k_gc = tr.add_op(g_c.clone());
+        let k_u1 = tr.add_op(u1.clone()); let k_u2 = tr.add_op(u2.clone()); let k_u3 = tr.add_op(u3.clone()); let k_u4 = tr.add_op(u4.clone());
+        let k_ext = tr.add_op(ext.clone()); let k_sx = tr.add_op(s_x.clone()); let k_ss = tr.add_op(s_s.clone());
+        let id_u3 = tr.w.ids[tr.op_ids[k_u3]];
+        let s_c = mk(20, Av::Cancel(id_u3, SELF), 60);
+        let k_sc = tr.add_op(s_c.clone());
+        let x = if nexec == 0 { None } else { Some(X1) };
+        // before the grants: the controller named as executor / proposer does not hold the roles
+        for k in [k_ge, k_gp, k_gc, k_u1, k_u2, k_u4, k_ext, k_sx, k_ss, k_sc] { tr.call(&mut out, &C::Schedule(k, 2, P1, pa(P1))); }
+        tr.call(&mut out, &C::Advance(2));
+        tr.call(&mut out, &C::Admin(10, u1.av.clone(), good_self(&u1, Some(SELF))));                 // executor = controller, not (yet) an executor
+        tr.call(&mut out, &C::Admin(g_e.f, g_e.av.clone(), good_self(&g_e, x)));
+        let x = x.or(Some(SELF));   // from now on executors are configured in any case
+        for g in [&g_p, &g_c] { tr.call(&mut out, &C::Admin(g.f, g.av.clone(), good_self(g, x))); }
+        // now the controller holds all three roles
+        {   // executor field = the controller, nobody signs: inside the end-to-end call the controller is the invoker of its own __check_auth
+            let mut au = good_self(&u1, Some(SELF)); au.exec.clear(); au.tag = "executor-is-controller";
+            tr.call(&mut out, &C::Admin(10, u1.av.clone(), au));
+        }
+        // the same through __check_auth directly (no invoking frame of the controller)
+        tr.call(&mut out, &C::CheckAuth(std::vec![MetaD { pred: z, salt: u2.salt, exec: Some(SELF) }], std::vec![Cx::C(SELF, 10, u2.av.clone())], std::vec![]));
+        tr.call(&mut out, &C::Admin(10, u2.av.clone(), good_self(&u2, x.or(Some(SELF)))));
+        // execute_op with executor = the controller: needs a consuming authorisation for (controller, execute_op, args)
+        tr.call(&mut out, &C::Execute(k_ext, Some(SELF), Authz::default()));
+        {   let mut au = Authz::default();
+            au.selfe = Some(SelfE { root: Cx::C(SELF, 19, s_x.av.clone()), subs: std::vec![], metas: std::vec![MetaD { pred: z, salt: s_x.salt, exec: x.or(Some(SELF)) }] });
+            if let Some(x) = x { if x != SELF { au.exec.push((x, s_x.clone())); } }
+            tr.call(&mut out, &C::Execute(k_ext, Some(SELF), au.clone()));
+            tr.call(&mut out, &C::Execute(k_ext, Some(SELF), au));
+        }
+        // schedule_op with proposer = the controller
+        tr.call(&mut out, &C::Schedule(k_u3, 20, SELF, Authz::default()));
+        {   let mut au = Authz::default();
+            au.selfe = Some(SelfE { root: Cx::C(SELF, 18, s_s.av.clone()), subs: std::vec![], metas: std::vec![MetaD { pred: z, salt: s_s.salt, exec: x.or(Some(SELF)) }] });
+            if let Some(x) = x { if x != SELF { au.exec.push((x, s_s.clone())); } }
+            tr.call(&mut out, &C::Schedule(k_u3, 21, SELF, au.clone()));                               // other delay than authorised
+            tr.call(&mut out, &C::Schedule(k_u3, 20, SELF, au));
+        }
+        // cancel_op with canceller = the controller
+        tr.call(&mut out, &C::Cancel(tr.op_ids[k_u3], SELF, Authz::default()));
+        {   let mut au = Authz::default();
+            au.selfe = Some(SelfE { root: Cx::C(SELF, 20, s_c.av.clone()), subs: std::vec![], metas: std::vec![MetaD { pred: z, salt: s_c.salt, exec: x.or(Some(SELF)) }] });
+            if let Some(x) = x { if x != SELF { au.exec.push((x, s_c.clone())); } }
+            tr.call(&mut out, &C::Cancel(tr.op_ids[k_u3], SELF, au));
+        }
+        tr.call(&mut out, &C::Admin(10, u4.av.clone(), good_self(&u4, x)));
+        tr.finish(&mut out, &format!("directed/controller-holds-roles-exec{}", nexec));
     }
     // cancelling needs the CANCELLER role, scheduling the PROPOSER role - not the other one
     {
